@@ -157,6 +157,10 @@ func buildScopeProgramX(hist0 []scEvent, xName string) []*model.N {
 			default:
 				add(model.ExprS(model.CallN(e.Name, K)))
 			}
+		case "declfn": // a function declaration of the name, in the current scope (whatever the name holds there)
+			add(model.Fun(e.Name, nil, model.Print(K), model.Return(K)))
+		case "callvar": // the name used as a callee
+			add(model.Print(model.CallN(e.Name)))
 		case "mkclo":
 			add(model.Fun("c"+id, nil, model.Print(model.Id(e.Name)), model.ExprS(model.Asg(e.Name, K))))
 		case "callclo":
@@ -269,6 +273,12 @@ func scopeWalk(c *fw.Ctx, sig, xName string, maxLen, maxDepth int) {
 				continue
 			}
 			try(scEvent{"call", f}, nil)
+		}
+		if !builtinX {
+			for _, n := range []string{"x", "y"} {
+				try(scEvent{"declfn", n}, nil)
+				try(scEvent{"callvar", n}, nil)
+			}
 		}
 		inFn := false
 		for _, k := range opens {
